@@ -540,13 +540,13 @@ def run_text(ctx, text, case, sdir):
 
 def one_defect_spec(rng):
     """A valid document with several siblings at every level (so that something can follow a defect)."""
-    spec = gen.gen_doc(rng, max_nodes=14, hostile=0.1, tuples=False, cards=False)
+    spec = gen.gen_doc(rng, max_nodes=14, hostile=0.1, tuples=False, cards=True)
     # make sure the first top level Section has >= 3 Properties and >= 3 sub-Sections
     top = spec["sections"][0]
     while len(top["properties"]) < 3:
-        top["properties"].append(gen.gen_prop(rng, "extra_p%d" % len(top["properties"]), 0.0, tuples=False, cards=False))
+        top["properties"].append(gen.gen_prop(rng, "extra_p%d" % len(top["properties"]), 0.0, tuples=False, cards=True))
     while len(top["sections"]) < 3:
-        top["sections"].append(gen.gen_sec(rng, "extra_s%d" % len(top["sections"]), 0, [2], 0.0, tuples=False, cards=False))
+        top["sections"].append(gen.gen_sec(rng, "extra_s%d" % len(top["sections"]), 0, [2], 0.0, tuples=False, cards=True))
     for _, n in model.walk(spec):
         if n["k"] == "prop":
             n["dependency"] = n["dependency_value"] = None
